@@ -76,10 +76,12 @@ func (f *StarvingMutex) RUnlock() {
 	f.mutex.Lock()
 
 	if f.readersActive == 0 {
+		f.mutex.Unlock()
 		panic("RUnlock called without RLock")
 	}
 
 	if f.writerActive {
+		f.mutex.Unlock()
 		panic("RUnlock called while writer active")
 	}
 
@@ -131,6 +133,7 @@ func (f *StarvingMutex) Unlock() {
 	f.mutex.Lock()
 
 	if f.readersActive > 0 {
+		f.mutex.Unlock()
 		panic("Unlock called while readers active")
 	}
 
